@@ -300,3 +300,18 @@ impl Drop for End {
         }
     }
 }
+
+/// Await `fut` for at most `secs` seconds of (virtual or wall) time. On expiry the future is leaked, never
+/// dropped: a dropped `scope::run!` future aborts the process (`must_complete::Guard`), which would turn a
+/// detected deadlock into a harness crash instead of a verdict.
+pub async fn leak_on_timeout<F: std::future::Future>(secs: u64, fut: F) -> Option<F::Output> {
+    let mut fut = Box::pin(fut);
+    tokio::select! {
+        biased;
+        v = &mut fut => Some(v),
+        _ = tokio::time::sleep(std::time::Duration::from_secs(secs)) => {
+            std::mem::forget(fut);
+            None
+        }
+    }
+}
